@@ -677,6 +677,9 @@ func (env *SpecEnv) evalCall(e *SExpr) *Value {
 			if !strings.HasPrefix(e.Args[1].Name, "*") {
 				// as(x, "T") for a boxed composite value: the immutable copy held by the interface
 				if _, isScalar := scalarSort(ty); !isScalar {
+					if isValueBoxType(ty) {
+						return unboxValue(ty, x.S)
+					}
 					return env.st.loadObj("box<"+typeName(ty)+">", ty, x.S)
 				}
 			}
@@ -773,6 +776,42 @@ func (env *SpecEnv) evalCall(e *SExpr) *Value {
 		case "ifaceVal":
 			x := arg(0)
 			return scalar(x.S, nil)
+		case "ifaceTyp":
+			// ifaceTyp(x): the dynamic type tag of interface x (0 for a nil interface)
+			x := arg(0)
+			if x.K != VIface {
+				specFail("ifaceTyp(iface)")
+			}
+			return scalar(x.Typ, types.Typ[types.Int])
+		case "typeTag", "boxed":
+			// typeTag("T") / typeTag("*T"): the tag interfaces carry for dynamic type T
+			// boxed("T", f1, ..., fn): the value identity of a struct T{f1..fn} (all fields scalar) held in an interface
+			if len(e.Args) == 0 || e.Args[0].Kind != SStrLit {
+				specFail("%s(\"type name\", ...)", name)
+			}
+			tn := e.Args[0].Name
+			isPtr := strings.HasPrefix(tn, "*")
+			tn = strings.TrimPrefix(tn, "*")
+			var ty types.Type
+			if i := strings.LastIndex(tn, "."); i >= 0 {
+				ty = env.reg.resolveSType(env.pkg, &SType{Kind: "name", Pkg: tn[:i], Name: tn[i+1:]})
+			} else {
+				ty = env.reg.resolveSType(env.pkg, &SType{Kind: "name", Name: tn})
+			}
+			if ty == nil {
+				specFail("%s: unknown type %s", name, tn)
+			}
+			if isPtr {
+				ty = types.NewPointer(ty)
+			}
+			if name == "typeTag" {
+				return scalar(typeTag(ty), types.Typ[types.Int])
+			}
+			var leaves []*Term
+			for i := 1; i < len(e.Args); i++ {
+				leaves = append(leaves, arg(i).S)
+			}
+			return scalar(mkUF("mkbox<"+typeName(ty)+">", SInt, leaves...), nil)
 		case "ref":
 			x := arg(0)
 			if x.K == VSlice {
